@@ -93,6 +93,10 @@ typedef struct console {
 
 	const console_cmd_t *cmd;
 	pt_t pt;
+
+	/*! Progress of console_eval(); lives outside scratch, which is both
+	 *  the line buffer and cleared by every prompt. */
+	uint16_t evali;
 } console_t;
 
 /*!
